@@ -965,6 +965,15 @@ theorem toSM_mag_pos_of_truthy {b : Val} (hb : b.wf) (ht : b.truthy = true) : 0 
     simp only [Val.truthy, bne_iff_ne, ne_eq] at ht
     exact lt_of_le_of_ne h0 (Ne.symm ht)
 
+/-- zero baseline: `_safe_divide` answers 0, the cell is `0.00%` -/
+theorem pctVal_of_falsy (absB : Bool) {b : Val} (h : b.truthy = false) (c : Val) : pctVal absB b c = .flt ⟨false, 0⟩ := by
+  have hd : (if absB then b.abs else b).truthy = false := by
+    cases absB
+    · simpa using h
+    · simpa [abs_truthy] using h
+  rw [pctVal_eq, hd]
+  simp [Val.mulK, Val.toSM, fl_zero]
+
 /-- sign of the percentage value for a non-zero baseline: sign(contender − baseline) · sign(baseline), or just
     sign(contender − baseline) when the call site divides by `abs(baseline)` -/
 theorem pctVal_shape {b : Val} (absB : Bool) (c : Val) (hb : b.wf) (ht : b.truthy = true) :
